@@ -97,7 +97,9 @@ def run(ctx):
     for op in ("Write", "WriteReader", "AppendReader"):
         if not c["per_op_crash_points"].get(op):
             raise InfraError("no crash point exercised for %s" % op)
-    n_long = sum(1 for k in c["nontrivial_keys"] if "name=long" in k)
+    # labels are "#<scenario index> ... name=long chunk=<bytes>": a scenario may run with several chunk sizes (thorough),
+    # so count distinct scenarios, and compare with what the model generated for THIS tier
+    n_long = len({k.split(" ")[0] for k in c["nontrivial_keys"] if "name=long" in k})
     if not n_long or n_long != sum(1 for x in scen if x["sc"]["nm"] == "long"):
         raise InfraError("the long-name class (staging name exceeds NAME_MAX) was not run completely: %d scenarios" % n_long)
     ctx.note("long_name_scenarios", n_long)
